@@ -69,9 +69,14 @@ pub(crate) fn cbor_len_positionitem_smallvec<Ctx, W: minicbor::encode::Write>(
 */
 
 pub(crate) fn cbor_decode_serialize_mode<'b, Ctx>(
-    _d: &mut minicbor::decode::Decoder<'b>,
+    d: &mut minicbor::decode::Decoder<'b>,
     _ctx: &mut Ctx,
 ) -> Result<Arc<RwLock<SerializeMode>>, minicbor::decode::Error> {
+    // the field occupies one array slot holding null; files written by earlier versions have
+    // nothing at all here (the next item is then the boolean of the following field)
+    if d.datatype()? == minicbor::data::Type::Null {
+        d.skip()?;
+    }
     // a store that was just loaded is not in the middle of writing a stand-off file: it is in
     // the same state as a freshly built one (see Config::default()), otherwise stand-off
     // resources and datasets would be serialised inline instead of via @include
@@ -80,9 +85,12 @@ pub(crate) fn cbor_decode_serialize_mode<'b, Ctx>(
 
 pub(crate) fn cbor_encode_serialize_mode<Ctx, W: minicbor::encode::Write>(
     _v: &Arc<RwLock<SerializeMode>>,
-    _e: &mut minicbor::encode::Encoder<W>,
+    e: &mut minicbor::encode::Encoder<W>,
     _ctx: &mut Ctx,
 ) -> Result<(), minicbor::encode::Error<W::Error>> {
+    // the flag itself is not stored, but the derived encoder has already counted this field in
+    // the array header, so exactly one item must be written or the output is not valid CBOR
+    e.null()?;
     Ok(())
 }
 
